@@ -153,6 +153,19 @@ def _identity_first_partition(ev, ops_key="self.symmetry_operations"):
             searched = _identity_search(u, ops_keys)
             oku = oku or searched
             okpart = tails[0][0] == u + 1 and (searched or _found_or_first(u))
+            if not searched:
+                # the index the loop leaves behind is set where the identity test HOLDS (not where it fails), to the position of that operation
+                afters = [a for a in find_atoms(u, lambda a: a[0] == "after")]
+                for af in afters:
+                    sets = [e for e in ev.events if e.kind == "assign" and e.name == af[1] and e.loops and e.loops[-1].k == af[2]]
+                    for e in sets:
+                        c, pol = e.guards[-1] if e.guards else (None, None)
+                        li = e.loops[-1]
+                        hit = c is not None and pol and ((c.as_atom() or ("",))[0] == "eq" and f"{M.IDENTITY}" in c.key() and ".integer_code" in c.key()
+                                                         or c.key().endswith(".is_identity()"))
+                        at_index = li.index is not None and e.value.key() == li.index.key() and li.kind == "enumerate" and li.lo in (None, P.const(0))
+                        oku = oku and bool(hit) and at_index
+                    oku = oku and bool(sets)
     return oku, okpart, [(str(a)[:80], str(b)[:80]) for a, b in sl]
 
 
@@ -200,6 +213,9 @@ def r01_1(chk, sg, cr):
                 shape = init[2][0]
                 it = seq_items(shape)
                 bufs[e.name] = (e.value, it[0] if it else shape)
+                if it and len(it) == 2:
+                    chk.ob("R01.1", SG, q, f"buffer '{e.name}' has one row of three coordinates per image", it[1] == P.const(3), node=e.node,
+                           fingerprint=f"cols:{e.name}", expected="(nsites * len(group), 3)", found=str(shape))
     form_b = not bufs and any(k[1] == "symops" for k in ev.defs)
     if form_b:
         return r01_1_ordered(chk, sg, cr, ev, q, coords, n)
@@ -237,7 +253,9 @@ def r01_1(chk, sg, cr):
     chk.ob("R01.1", SG, q, "the identity is located by its packed code among the group's operations", oku)
     other = [v for k, v in ev.defs.items() if k[1] == "other_symops"]
     chk.need(other, f"{q}: list of the remaining operations not found")
-    chk.ob("R01.1", SG, q, "the remaining operations are ops[:u] and ops[u+1:] (each non-identity operation exactly once)", okpart, found=sl)
+    ov = other[-1]
+    joined = ov.as_atom() is not None or (ov.is_poly() and all(c == 1 for c in ov.n.values()))       # a + b of two lists, not a - b
+    chk.ob("R01.1", SG, q, "the remaining operations are ops[:u] and ops[u+1:] (each non-identity operation exactly once)", okpart and joined, found=sl)
     if rep is not None:
         # one block per entry of [identity] + other, each repeated n times: 1 + (len(ops) - 1) blocks when the partition holds
         chk.ob("R01.1", SG, q, f"buffer '{rep[0]}' holds nsites * len(group) entries", okpart and rep[4] == n, fingerprint=f"size:{rep[0]}",
@@ -597,11 +615,25 @@ def r01_234(chk, cr):
         # an absorbed site gives its occupancy to exactly one survivor: both members of a merged pair must still be alive, otherwise a chain
         # a~b~c (a not within tolerance of c) credits b's occupancy twice or adds to a site that is itself dropped
         alive = mask.key() in gtxt and ia.key() in gtxt and ib.key() in gtxt and gtxt.count(mask.key()) >= 2
+        # ... as two conditions that both hold on the way to the merge (mask[i] and mask[j], not mask[i] or mask[j], not negated)
+        mi, mj = P.atom(("sub", mask, (ia,))).key(), P.atom(("sub", mask, (ib,))).key()
+        held = {c.key() for c, pol in a.guards if pol}
+        alive = alive and mi in held and mj in held
         chk.ob("R01.4", CR, q, "total occupancy is conserved: a pair is merged only while both members are still unmerged (closeness within the "
                "tolerance is not transitive)", alive, node=a.event.node, fingerprint="merge-alive", expected="if mask[i] and mask[j]: ...",
                found=[f"{'' if p else 'not '}{c}"[-80:] for c, p in a.guards])
         # only images of one and the same asymmetric-unit site are merged (two elements sharing a position are two sites)
         same_site = any(w in gtxt for w in ("asym[", "uc_nums[", "asym_atom", "labels[", "numpy.tile(self.site_atoms", "numpy.tile(atoms"))
+        # ... as an equality COL[i] == COL[j] of a site-identity column that holds on the way to the merge (not its negation)
+        eq_ok = False
+        for c, pol in a.guards:
+            ca = c.as_atom()
+            if ca and ca[0] in ("eq", "ne") and pol == (ca[0] == "eq"):
+                l, r = ca[1].as_atom(), ca[2].as_atom()
+                if l and r and l[0] == "sub" and r[0] == "sub" and l[1].key() == r[1].key() and len(l[2]) == 1 and len(r[2]) == 1 \
+                        and {l[2][0].key(), r[2][0].key()} == {ia.key(), ib.key()}:
+                    eq_ok = True
+        same_site = same_site and eq_ok
         chk.ob("R01.4", CR, q, "only sites of the same element (or the same asymmetric-unit site) are merged: two elements sharing a position stay two sites",
                same_site, node=a.event.node, fingerprint="merge-same-site", expected="uc_nums[i] == uc_nums[j] (or asym[i] == asym[j]) in the merge condition",
                found=[f"{'' if p else 'not '}{c}"[-80:] for c, p in a.guards])
